@@ -233,6 +233,14 @@ def prepare(ctx, theorems):
     if hits:
         ok_all = False
         ctx.theorem_failures.append({'audit': hits})
+    # thorough tier: the property's theorem modules are re-checked by the toolchain's independent checker
+    if getattr(ctx, 'tier', 'quick') == 'thorough' and ok:
+        for mod in mods:
+            okc, outc, dtc = vbuild.leanchecker(mod)
+            ctx.count('leanchecker_modules', 1)
+            if not okc:
+                ok_all = False
+                ctx.theorem_failures.append({'modules': [mod], 'log': 'leanchecker: ' + outc[-2000:]})
     for mod, names in theorems:
         if not names:
             continue
@@ -444,6 +452,21 @@ def main():
             ctx.cov['rule'] = 'initialisation aborted under the sanitizer; nothing else could be explored'
             ctx.violations = getattr(ctx, 'violations', 0) + 1
             finish(ctx, 'proof', [], 'sanitizer abort during engine initialisation', 'python3 tools/vcheck.py ' + a.pid)
+        except Exception:
+            pass
+        sys.exit(1)
+    except vbuild.TieBroken as e:
+        # the tree changed in a way the harness cannot follow: the property is no longer shown to hold (no failing input known)
+        os.makedirs(REPLAYS, exist_ok=True)
+        path = os.path.join(REPLAYS, f'{a.pid}-tie-{ctx.seed}.txt')
+        with open(path, 'w') as fh:
+            fh.write(f'# property {a.pid}: the correspondence check cannot be run against this tree\n# concrete-failing-input: no\n'
+                     f'# broken obligation: correspondence C++ <-> model (the C++ side does not build)\n' + str(e) + '\n')
+        print(f'VIOLATION property={a.pid} replay={path} no-failing-input-found')
+        try:
+            ctx.cov['rule'] = 'the harness does not build against the tree under test; nothing could be explored'
+            ctx.violations = [{'what': 'harness does not build against this tree', 'replay': path, 'concrete': False}]
+            finish(ctx, 'proof', [], 'correspondence broken: harness does not build', 'python3 tools/vcheck.py ' + a.pid)
         except Exception:
             pass
         sys.exit(1)
